@@ -111,7 +111,7 @@ def _inputs_key(tier: str, seed: int) -> str:
     try:
         from spec.asyncio_units import stdlib_file
 
-        for mod in ("asyncio.locks", "asyncio.queues", "asyncio.tasks", "argparse"):
+        for mod in ("asyncio.locks", "asyncio.queues", "asyncio.tasks", "asyncio.futures", "argparse"):
             h.update(open(stdlib_file(mod), "rb").read())
     except Exception as e:  # the units will report the problem themselves
         h.update(repr(e).encode())
